@@ -54,6 +54,9 @@ def render_sites(ck, rule):
                      "the image is shorter/longer than the word")
             ck.check(dotted(nf) == "n_frac_dot", rule, b, "bin() passes the requested point position", "n_frac=%s" % (src(nf) if nf is not None else None), c, nontrivial=False)
             ck.check(okint, rule, b, "bin() renders the code as exact Python integer(s)", "value %s" % (src(x)[:50] if x is not None else None), c, "floats / numpy scalars of wide words lose bits")
+            if okint and isinstance(x, ast.Call) and dotted(x.func) == "utils.int_array" and x.args and dotted(x.args[0]) == "self.val":
+                ck.bad(rule, b, "a scalar code is rendered from int(code); int_array is for the elements of an array", "value %s" % src(x)[:50], c,
+                       "int_array of a scalar beyond 64 bits is a 0-d object array, which the point-inserting renderer cannot convert")
             ck.check(dotted(px) == "prefix", rule, b, "bin() passes the selected prefix", "prefix=%s" % (src(px) if px is not None else None), c, nontrivial=False)
     h = prog.func("objects.Fxp.hex")
     for pf in fpaths(prog, h):
@@ -617,3 +620,32 @@ def decimal_arm(ck, rule):
                      "the fractional digits are dropped before scaling: the configured rounding mode never sees them")
     if n == 0:
         raise AnalysisError("str2num: numeric conversions not found")
+
+
+def base_numeral(ck, rule):
+    """C11.R7: utils.base_repr returns np.base_repr(x, base) - the sign-magnitude numeral of the code - and inserts a point only for base 2 with a
+    requested position (n_frac counts bits, not digits of another base)."""
+    prog = ck.prog
+    f = prog.func("utils.base_repr")
+    n = 0
+    for pf in fpaths(prog, f):
+        if pf.end != "return" or pf.ret is None:
+            continue
+        n += 1
+        r = pf.ret
+        pt = None
+        if isinstance(r, ast.Call) and prog.resolve_call(f, r) == "utils.insert_frac_point":
+            pt = r
+            r = r.args[0] if r.args else None
+        okn = isinstance(r, ast.Call) and dotted(r.func) == "np.base_repr" and r.args and dotted(r.args[0]) == "x" and dotted(kw(r, "base", 1)) == "base"
+        ck.check(okn, rule, f, "base_repr renders np.base_repr(x, base=base)", "returns %s" % src(pf.ret)[:70], pf.ret_stmt)
+        if pt is not None:
+            b2 = None
+            for t, pol in path_literals(pf.guards):
+                if isinstance(t, ast.Compare) and len(t.ops) == 1 and dotted(t.left) == "base" and isinstance(t.comparators[0], ast.Constant) and t.comparators[0].value == 2:
+                    b2 = pol if isinstance(t.ops[0], ast.Eq) else ((not pol) if isinstance(t.ops[0], ast.NotEq) else None)
+            ck.check(b2 is True and none_state(pf.guards, "n_frac") is False, rule, f, "a point is inserted only into base-2 numerals, at the requested bit position",
+                     "point inserted under %s" % [(src(g[0])[:30], g[1]) for g in pf.guards], pf.ret_stmt, "n_frac counts bits: in another base the point lands between the wrong digits")
+    if n == 0:
+        raise AnalysisError("utils.base_repr: no returning path")
+    ck.saw(f)
